@@ -688,6 +688,76 @@ func (e *entrySpec) build(data []byte) *sigEntry {
 func (f *sigsFam) Gen(r *hx.Run) {
 	r.Rule("tx: invoke transactions whose signature entries are built from a pool of 33 real keys (ECDSA P-224/256/384/521 with SHA-2/SHA-3, SM2, Ed25519): valid single and m-of-n entries (n 2..17, m 1..n, signers in key order or shuffled), corrupted / truncated / empty / foreign / other-message signatures, reused signature, same signer twice, repeated and permuted keys, m in {0, n+1, 65535}, one signature missing, valid signature beyond the first m, 1..17 entries incl. repeated entries; vms: VerifyMultiSignature on the same entry kinds; distinct non-trivial = distinct (entry kinds, verdict) per transaction")
 	pool := newKeys()
+	// every interleaving of valid / invalid single-key and multi-key entries, 2..4 entries per transaction (all 16 pairs,
+	// all 64 triples, a sample of the 256 quadruples): each entry must be validated as what it is, at its own position
+	mkEntry := func(kind int, data, other []byte) (*sigEntry, string) {
+		switch kind {
+		case 0: // valid single
+			k := pool[r.Rng.Intn(20)]
+			es := &entrySpec{keys: []*sigKey{k}, m: 1, sigs: [][]byte{k.sign(data)}}
+			return es.build(data), "S"
+		case 1: // single key, signature of somebody else
+			k, o := pool[r.Rng.Intn(20)], pool[20+r.Rng.Intn(len(pool)-20)]
+			es := &entrySpec{keys: []*sigKey{k}, m: 1, sigs: [][]byte{o.sign(data)}}
+			return es.build(data), "s"
+		case 2: // valid m-of-n
+			n := 2 + r.Rng.Intn(2)
+			ks := pickKeys(r, pool[:20], n, false)
+			m := 1 + r.Rng.Intn(n)
+			es := &entrySpec{keys: ks, m: m}
+			for _, p := range r.Rng.Perm(n)[:m] {
+				es.sigs = append(es.sigs, ks[p].sign(data))
+			}
+			return es.build(data), "M"
+		default: // m-of-n key list of a victim, signatures only by an outsider (or over another message)
+			n := 2 + r.Rng.Intn(2)
+			ks := pickKeys(r, pool[:20], n, false)
+			m := 2
+			es := &entrySpec{keys: ks, m: m}
+			o := pool[20+r.Rng.Intn(len(pool)-20)]
+			for j := 0; j < m; j++ {
+				if r.Rng.Bool() {
+					es.sigs = append(es.sigs, o.sign(data))
+				} else {
+					es.sigs = append(es.sigs, ks[j].sign(other))
+				}
+			}
+			return es.build(data), "m"
+		}
+	}
+	combo := 0
+	for k := 2; k <= 4; k++ {
+		total := 1
+		for j := 0; j < k; j++ {
+			total *= 4
+		}
+		for c := 0; c < total; c++ {
+			if k == 4 && !r.Rng.Chance(r.Pick(40, 256), 256) {
+				continue
+			}
+			combo++
+			r.Case(fmt.Sprintf("mix-%d", combo))
+			nonce := uint32(r.Rng.Intn(1 << 30))
+			tx, err := txFor(nonce)
+			if err != nil {
+				panic(err)
+			}
+			h := tx.Hash()
+			other := r.Rng.Bytes(32)
+			var toks []string
+			shape := ""
+			x := c
+			for j := 0; j < k; j++ {
+				e, tag := mkEntry(x%4, h[:], other)
+				x /= 4
+				toks = append(toks, e.token())
+				shape += tag
+			}
+			res := r.Do(fmt.Sprintf("tx %d %s", nonce, strings.Join(toks, " ")))
+			r.Nontrivial("mix/" + shape + "/" + strings.Fields(res)[0])
+			r.Hist("mix." + strings.Fields(res)[0])
+		}
+	}
 	nTx := r.Pick(700, 20000)
 	for i := 0; i < nTx; i++ {
 		r.Case(fmt.Sprintf("tx-%d", i))
